@@ -135,6 +135,21 @@ func c09Views(wire []byte, keyed bool) (clear, all []byte, protected int) {
 
 var c09Versions = []*message.HTCondorVersion{nil, {Major: 8, Minor: 9, Patch: 13}, {Major: 9, Minor: 8, Patch: 9}, {Major: 9, Minor: 9, Patch: 0}, {Major: 9, Minor: 9, Patch: 1}, {Major: 10, Minor: 0, Patch: 0}}
 
+// c09VersionGrid: the peer-version cut-off (9.9.0) probed from every side - each
+// component below, at and above its cut-off value while the others vary. Used for
+// the reserved-prefix names, the only ones the peer version matters for.
+func c09VersionGrid() []*message.HTCondorVersion {
+	out := []*message.HTCondorVersion{nil}
+	for _, ma := range []int{6, 8, 9, 10, 23} {
+		for _, mi := range []int{0, 8, 9, 10} {
+			for _, pa := range []int{0, 13} {
+				out = append(out, &message.HTCondorVersion{Major: ma, Minor: mi, Patch: pa})
+			}
+		}
+	}
+	return out
+}
+
 func c09RunName(idx int, name string, v2 bool, multiFrame bool, versions []*message.HTCondorVersion) *vlib.Result {
 	ctx := context.Background()
 	res := &vlib.Result{}
@@ -290,7 +305,7 @@ func containsAttr(b []byte, lowName string) bool {
 func C09Plan() *vlib.Plan {
 	p := &vlib.Plan{
 		Property: "C09", Level: "exploration",
-		Rule:   "E-ENUM full product: every case variant of the 6 fixed private names (all 2^n variants for names <= 8 letters, lower/upper/single-letter flips otherwise) and of the _condor_priv prefix x suffixes {'',X,_key}, x all 64 option-bit sets x 4 whitelist shapes (none, public only, naming the private name, naming it in another case) x 6 peer versions x 3 stream states; ad also holds near-miss public names. Oracle: independent search of wire bytes and of their reference decryption for the private name and a unique canary; real receiver in the same state must rebuild the filtered ad and stay in sync (sentinel). Non-trivial = every combo (each serialises an ad holding a private attribute).",
+		Rule:   "E-ENUM full product: every case variant of the 6 fixed private names (all 2^n variants for names <= 8 letters, lower/upper/single-letter flips otherwise) and of the _condor_priv prefix x suffixes {'',X,_key}, x all 64 option-bit sets x 4 whitelist shapes (none, public only, naming the private name, naming it in another case) x peer versions (6 fixed; for reserved-prefix names a 41-point grid major {6,8,9,10,23} x minor {0,8,9,10} x patch {0,13} + none) x 3 stream states; ad also holds near-miss public names. Oracle: independent search of wire bytes and of their reference decryption for the private name and a unique canary; real receiver in the same state must rebuild the filtered ad and stay in sync (sentinel). Non-trivial = every combo (each serialises an ad holding a private attribute).",
 		Assume: []string{"reference decryption by refcodec; canary strings are unique 10+ character tokens"},
 	}
 	p.Gen = func(tier string, yield func(vlib.Case)) {
@@ -300,9 +315,14 @@ func C09Plan() *vlib.Plan {
 			vers = []*message.HTCondorVersion{nil, c09Versions[2], c09Versions[3], c09Versions[5]}
 		}
 		p.Bounds = map[string]any{"private_name_variants": len(names), "combos_per_name": 64 * 4 * len(vers) * 3}
+		grid := c09VersionGrid()
 		for i, n := range names {
 			i, n := i, n
-			yield(vlib.Case{ID: "name/" + n, Run: func() *vlib.Result { return c09RunName(i, n, v2[n], false, vers) }})
+			vs := vers
+			if v2[n] && (tier == "thorough" || i%3 == 0) {
+				vs = grid // reserved-prefix names: the whole version grid (quick: every third variant)
+			}
+			yield(vlib.Case{ID: "name/" + n, Run: func() *vlib.Result { return c09RunName(i, n, v2[n], false, vs) }})
 		}
 		if tier == "thorough" {
 			for i, n := range names {
